@@ -6,6 +6,7 @@ mod util;
 #[path = "gen.rs"]
 mod r#gen;
 mod c04t;
+mod c05;
 mod c09;
 mod c10;
 mod c11;
@@ -55,6 +56,7 @@ fn main() {
         "e2" => e2::run(&args),
         "e3" => e3::run(&args),
         "c09" => c09::run(&args),
+        "c05gc" => c05::run(&args),
         "c04t" => c04t::run(&args),
         "c09regions" => c09::run_regions(&args),
         "c20race" => c20::run(&args),
